@@ -81,6 +81,27 @@ def gen(tier, seed, info):
                 for ow in (0, 1):
                     n += 1
                     yield "%s %s cn:2:1 cp:1:0:%d cp:2:0:%d cp:0:0:%d" % (setter(0, a, v1), setter(1, a, v2), ow, 1 - ow, ow)
+    # frame: setting / clearing / describing attribute b leaves attribute a alone -- every ordered
+    # pair of attributes, a carrying a rich value (colours with an RGB8 secondary)
+    rich = {1: (5, (17, 128, 0)), 2: (200, (1, 2, 3)), 3: 1, 4: 3, 5: 1, 6: 1, 7: 1, 8: 15, 9: 1, 10: 3}
+    other = {1: 7, 2: 0, 3: 0, 4: 1, 5: 0, 6: 0, 7: 0, 8: -1, 9: 0, 10: 2}
+    for a in range(1, 11):
+        for b in range(1, 11):
+            if a == b:
+                continue
+            acts = [setter(1, b, other[b]), "ca:1:%d" % b, setter(1, b, rich[b])]
+            if b in COL_ATTRS:
+                acts += ["sd:1:%d:%s" % (b, hx("red")), "sd:1:%d:%s" % (b, hx("hi-blue #102030")), "sr:1:%d:9:8:7" % b]
+            for act in acts:
+                n += 1
+                yield "%s %s cn:2:1 cp:0:1:1" % (setter(1, a, rich[a]), act)
+    # every kind of mutating call while the pen's change handler drops a reference (the pen is held
+    # by the library while handlers run)
+    for act in ("sb:0:3:1", "si:0:8:5", "sc:0:1:5", "sc:0:1:5 hk:0 sr:0:1:1:2:3", "sd:0:2:%s" % hx("red #102030"),
+                "ca:0:3", "cl:0", "sc:1:1:9 sr:1:1:4:5:6 sb:1:3:1 hk:0 cp:0:1:1", "sc:1:2:9 hk:0 ct:0:1:2",
+                "sb:0:5:1 hk:0 cp:0:0:1", "hk:0 hk:0 sb:0:9:1 sb:0:9:0"):
+        n += 1
+        yield "hk:0 %s cn:2:0" % act
     # --- exhaustive 2: descriptions
     m = 0
     alpha = "blredhi-# 019fx+"
@@ -118,7 +139,7 @@ def gen(tier, seed, info):
             m += 1
             yield desc_case(s, a)
     info["exhaustive"] = True
-    info["exhaustive_scope"] = ("setters sb/si/sc x attribute codes 0..11 x values -300..600 (+ in-type values through copy/copy_attr/clone; + every attribute x source value|absent x destination value|absent x overwrite flag through clone and copy both ways): %d cases; "
+    info["exhaustive_scope"] = ("setters sb/si/sc x attribute codes 0..11 x values -300..600 (+ in-type values through copy/copy_attr/clone; + every attribute x source value|absent x destination value|absent x overwrite flag through clone and copy both ways; + frame: every ordered pair of attributes a, b: a set to a rich value, then b set / cleared / described, then clone and copy): %d cases; "
                                 "descriptions: all strings of length <=3 over '%s', '7#'+all strings of length <=4 over '%s', "
                                 "all prefixes of the 13 names x hi- x blanks x 9 RGB tails, decimals -2..300 x hi- x 6 tails, 52 special strings x 4 attributes: %d cases"
                                 % (n, alpha, ralpha, m))
@@ -184,8 +205,10 @@ def gen(tier, seed, info):
             return "cp:%d:%d:%d" % (p, q, rnd.randint(0, 1))
         if k < 0.93:
             return "ct:%d:%d:%d" % (p, q, rattr())
-        if k < 0.98:
+        if k < 0.96:
             return "cn:%d:%d" % (p, q)
+        if k < 0.985:
+            return "hk:%d" % p
         return "nw:%d" % p
 
     for _ in range(nhist):
@@ -239,6 +262,8 @@ def classify(case, obs):
             sig.append((op, int(f[2]) if op != "ct" else int(f[3])))
         elif op == "cp":
             sig.append((op, f[1] == f[2], f[3]))
+        elif op == "hk":
+            sig.append((op,))
         else:
             sig.append((op,))
     if len(sig) > 4:      # long histories: kinds only
